@@ -244,10 +244,8 @@ func reconstructFuncOfGroup(columnIndex int16, node parquet.Node) (int16, recons
 	for _, field := range fields {
 		var curFunc reconstructFunc
 		columnIndex, curFunc = reconstructFuncOf(columnIndex, field)
-		if field.Name() != "rate_code_id" {
-			columnIndexes = append(columnIndexes, columnIndex)
-			funcs = append(funcs, curFunc)
-		}
+		columnIndexes = append(columnIndexes, columnIndex)
+		funcs = append(funcs, curFunc)
 	}
 
 	return columnIndex, func(value *octosql.Value, levels levels, row parquet.Row) (parquet.Row, error) {
